@@ -8,8 +8,14 @@ package fs
 
 //@ -- File.Sync refines types.WritableFile.Sync: fsync(file) and, the first time
 //@ -- only, fsync of the containing directory, before nil is returned.
+//@ -- the file handle as the WAL sees it (types.WritableFile): "the directory entry
+//@ -- is durable" is the handle's new flag; the dirty/closed/size ghosts of the
+//@ -- interface view have no counterpart here (the OS side is a trace of events)
+//@ coupling File.dirLinked = self.new != 0
+
 //@ func (*File).Sync
 //@   props C07 C10
+//@   refines types.WritableFile.Sync
 //@   assigns f.new
 //@   ensures[C07.sync-file] result == nil ==> traced("fsync(file)")
 //@   ensures[C07.first-sync-syncs-dir] result == nil && old(f.new) == 0 ==> traced("fsync(file)", "open(dir)", "fsync(dir)")
@@ -21,6 +27,7 @@ package fs
 //@ -- descriptor behind: the exclusive create of a retry would fail with EEXIST
 //@ func (*FS).Create
 //@   props C07 C11
+//@   refines types.VFS.Create
 //@   ensures[C07.create-exclusive] traced("openfile(excl-create,rdwr)")
 //@   ensures[C07.create-prealloc] result1 == nil && size > 0 ==> traced("openfile(excl-create,rdwr)", "preallocate(extend)")
 //@   ensures[C07.create-new-flag] result1 == nil ==> isdyn(result0, "fs.File") && result0.new == 0
